@@ -4,6 +4,7 @@
 package c12
 
 import (
+	"context"
 	"fmt"
 	"reflect"
 	"sort"
@@ -21,6 +22,8 @@ import (
 
 func TestMain(m *testing.M) { harness.Main(m) }
 
+type ctxKey struct{}
+
 // ---- models ---------------------------------------------------------------------------------
 
 // One owner type carries every relation kind, so that a history can stay on one
@@ -31,23 +34,25 @@ type Owner struct {
 	One    *One   `gorm:"foreignKey:OwnerID"` // has one
 	Many   []Many `gorm:"foreignKey:OwnerID"` // has many
 	Notes  []Note `gorm:"polymorphic:Holder"` // polymorphic has many (holder_type = "owners")
-	BossID *uint  // belongs to
+	BossID *int   // belongs to (signed integer key)
 	Boss   *Boss
 	// belongs to, second flavour: value foreign key and value field
 	ChiefID uint
 	Chief   Chief
 	// composite-keyed targets (ID, Rev): Rev = 0 is a legitimate key part
-	Docs []Doc  `gorm:"foreignKey:OwnerID"`   // has many
-	Refs []*Ref `gorm:"many2many:owner_refs"` // many to many
+	Docs []*Doc `gorm:"foreignKey:OwnerID"`   // has many, pointer elements
+	Refs []Ref  `gorm:"many2many:owner_refs"` // many to many, value elements
+	// polymorphic has one with a custom type value (seals.holder_type = "master")
+	Seal *Seal `gorm:"polymorphic:Holder;polymorphicValue:master"`
 	// relations over a unique NON-primary column (references:Code)
 	Code      string `gorm:"uniqueIndex"` // "oc<ID>"
 	GuildCode *string
 	Guild     *Guild  `gorm:"foreignKey:GuildCode;references:Code"` // belongs to
 	Badges    []Badge `gorm:"foreignKey:OwnerCode;references:Code"` // has many
 	// string-keyed targets: keys that differ only in letter case are different records
-	Parts []Part  `gorm:"foreignKey:OwnerID"`    // has many, children with a string primary key
-	Langs []*Lang `gorm:"many2many:owner_langs"` // many to many, string primary key
-	Tags  []*Tag  `gorm:"many2many:owner_tags"`  // many to many
+	Parts []Part  `gorm:"foreignKey:OwnerID"`                                                 // has many, children with a string primary key
+	Langs []*Lang `gorm:"many2many:owner_langs"`                                              // many to many, string primary key
+	Tags  []*Tag  `gorm:"many2many:owner_tags;joinForeignKey:OwnerKey;joinReferences:TagKey"` // many to many, renamed join columns
 }
 
 type One struct {
@@ -57,9 +62,17 @@ type One struct {
 }
 
 type Many struct {
-	ID      uint `gorm:"primaryKey"`
-	Name    string
-	OwnerID *uint
+	ID        uint `gorm:"primaryKey"`
+	Name      string
+	OwnerID   *uint
+	DeletedAt gorm.DeletedAt // soft delete: Unscoped() association calls soft-delete, db.Unscoped() + Unscoped() delete
+}
+
+type Seal struct {
+	ID         uint `gorm:"primaryKey"`
+	Name       string
+	HolderID   *uint
+	HolderType string
 }
 
 type Note struct {
@@ -70,7 +83,7 @@ type Note struct {
 }
 
 type Boss struct {
-	ID   uint `gorm:"primaryKey"`
+	ID   int `gorm:"primaryKey"` // signed key: utils.ToStringKey's fmt.Sprint arm
 	Name string
 }
 
@@ -82,7 +95,7 @@ type Chief struct {
 type Part struct {
 	Code    string `gorm:"primaryKey"`
 	Name    string
-	OwnerID *uint
+	OwnerID uint // value foreign key: NULL in the database reads as 0
 }
 
 type Lang struct {
@@ -133,6 +146,7 @@ func (Doc) TableName() string   { return "docs" }
 func (Ref) TableName() string   { return "refs" }
 func (Guild) TableName() string { return "guilds" }
 func (Badge) TableName() string { return "badges" }
+func (Seal) TableName() string  { return "seals" }
 
 const (
 	hasOne    = "has-one"
@@ -151,6 +165,7 @@ type relSpec struct {
 	Comp  bool   // composite primary key (ID, Rev)
 	PtrFK bool   // belongs-to whose foreign key field is a pointer
 	Ref   bool   // the foreign key refers to a unique non-primary column ("Code")
+	Poly  string // polymorphic: the holder_type value that means "owners"
 	Join  string // join table (many to many)
 	JoinC string // target column of the join table
 }
@@ -158,7 +173,7 @@ type relSpec struct {
 var rels = []relSpec{
 	{Name: "One", Kind: hasOne, Table: "ones", Elem: reflect.TypeOf(One{})},
 	{Name: "Many", Kind: hasMany, Table: "manies", Elem: reflect.TypeOf(Many{})},
-	{Name: "Notes", Kind: poly, Table: "notes", Elem: reflect.TypeOf(Note{})},
+	{Name: "Notes", Kind: poly, Table: "notes", Elem: reflect.TypeOf(Note{}), Poly: "owners"},
 	{Name: "Boss", Kind: belongsTo, Table: "bosses", Elem: reflect.TypeOf(Boss{}), PtrFK: true},
 	{Name: "Tags", Kind: m2m, Table: "tags", Elem: reflect.TypeOf(Tag{}), Join: "owner_tags", JoinC: "tag_id"},
 	{Name: "Chief", Kind: belongsTo, Table: "chiefs", Elem: reflect.TypeOf(Chief{})},
@@ -168,6 +183,7 @@ var rels = []relSpec{
 	{Name: "Refs", Kind: m2m, Table: "refs", Elem: reflect.TypeOf(Ref{}), Comp: true, Join: "owner_refs"},
 	{Name: "Guild", Kind: belongsTo, Table: "guilds", Elem: reflect.TypeOf(Guild{}), PtrFK: true, Ref: true},
 	{Name: "Badges", Kind: hasMany, Table: "badges", Elem: reflect.TypeOf(Badge{}), Ref: true},
+	{Name: "Seal", Kind: hasOne, Table: "seals", Elem: reflect.TypeOf(Seal{}), Poly: "master"},
 }
 
 func relByName(n string) relSpec {
@@ -248,10 +264,25 @@ type Setup struct {
 	Slice    bool   // operations go through db.Model(&owners)
 	PtrElems bool   // the slice is []*Owner instead of []Owner
 	Preload  bool   // in-memory owners start with seeded links, loaded with Preload
+	ByValue  bool   // slice mode: db.Model(owners) instead of db.Model(&owners)
+	Cfg      Cfg    // gorm.Config / dialector switches of the handle
 	// seeded links (plain SQL, before the first operation)
 	FK    map[string][]string  // relation -> holder of target 1..poolSize ("" | "owners/2" | "others/1")
 	BT    map[string][]uint    // belongs-to relation -> target of owner 1..NOwners (0 = none)
 	Pairs map[string][][2]uint // many-to-many relation -> (owner, target)
+}
+
+// Cfg are the Config / dialector switches that reach the association code.
+type Cfg struct {
+	SkipTx      bool // Config.SkipDefaultTransaction
+	Batch       int  // Config.CreateBatchSize (targets of one call are inserted in batches)
+	QueryFields bool // Config.QueryFields
+	NoReturning bool // dialector without RETURNING (keys of new targets come from LastInsertId)
+	FullSave    bool // Config.FullSaveAssociations
+}
+
+func (c Cfg) String() string {
+	return fmt.Sprintf("cfg{skiptx=%v batch=%d queryfields=%v noreturning=%v fullsave=%v}", c.SkipTx, c.Batch, c.QueryFields, c.NoReturning, c.FullSave)
 }
 
 // Val names one value handed to gorm: a fresh copy of a saved target, or a new unsaved one.
@@ -282,7 +313,12 @@ type Step struct {
 	Act      string // append | replace | delete | clear | count | find
 	Unscoped bool
 	Args     [][]Val  // append/replace: one entry per in-memory owner; delete: one entry
-	Forms    []string // how each entry is passed: ptrs | slice | ptrslice | sliceptr
+	Forms    []string // how each entry is passed: ptrs | slice | ptrslice | sliceptr | mixed | ptrarray | value | own-field
+	// how the call is reached
+	Handle     string // "" db | ctx | session | newdb | prepared | tx (Begin..Commit) | txfunc (db.Transaction)
+	DBUnscoped bool   // db.Unscoped().Model(..).Association(..).Unscoped(): permanent delete
+	Omit       bool   // db.Omit("<Rel>.*"): do not upsert the (saved) many-to-many targets, only join rows
+	Own        int    // form own-field: index of the in-memory owner whose own relation field goes to Delete
 }
 
 func (s Step) String() string {
@@ -298,7 +334,20 @@ func (s Step) String() string {
 		}
 		a = append(a, s.Forms[i]+"["+strings.Join(x, ",")+"]")
 	}
-	return fmt.Sprintf("%s%s.%s(%s)", s.Rel, u, s.Act, strings.Join(a, "; "))
+	pre := ""
+	if s.Handle != "" {
+		pre += s.Handle + ":"
+	}
+	if s.DBUnscoped {
+		pre += "db.Unscoped():"
+	}
+	if s.Omit {
+		pre += "Omit(" + s.Rel + ".*):"
+	}
+	if len(s.Forms) == 1 && s.Forms[0] == "own-field" {
+		pre += fmt.Sprintf("own%d:", s.Own)
+	}
+	return fmt.Sprintf("%s%s%s.%s(%s)", pre, s.Rel, u, s.Act, strings.Join(a, "; "))
 }
 
 func (s Step) mutating() bool { return s.Act != "count" && s.Act != "find" }
@@ -317,6 +366,10 @@ func (su Setup) String() string {
 			fk = append(fk, r.Name+"="+strings.Join(su.FK[r.Name], "|"))
 		}
 	}
+	if su.ByValue {
+		mode += "(by value)"
+	}
+	mode += " " + su.Cfg.String()
 	return fmt.Sprintf("kind=%s owners=%d mem=%v mode=%s preload=%v seed{%s boss=%v chief=%v guild=%v tags=%v langs=%v refs=%v}",
 		su.Kind, su.NOwners, su.Mem, mode, su.Preload, strings.Join(fk, " "), su.BT["Boss"], su.BT["Chief"], su.BT["Guild"], su.Pairs["Tags"], su.Pairs["Langs"], su.Pairs["Refs"])
 }
@@ -330,6 +383,7 @@ type model struct {
 	boss    map[string]map[uint]uint    // belongs-to relation -> owner -> target (0 = none)
 	pairs   map[string]map[[2]uint]bool // many-to-many relation -> (owner, target)
 	gcodes  map[uint]string             // guild handle -> its code (kept when the row is deleted)
+	soft    map[uint][2]string          // soft-deleted rows of manies: key -> {name, holder still stored in owner_id}
 }
 
 func ownersHolder(o uint) string { return fmt.Sprintf("owners/%d", o) }
@@ -337,7 +391,7 @@ func ownersHolder(o uint) string { return fmt.Sprintf("owners/%d", o) }
 func newModel(su Setup) *model {
 	m := &model{nOwners: su.NOwners, rows: map[string]map[uint]string{}, holder: map[string]map[uint]string{},
 		boss: map[string]map[uint]uint{"Boss": {}, "Chief": {}, "Guild": {}}, pairs: map[string]map[[2]uint]bool{"Tags": {}, "Langs": {}, "Refs": {}},
-		gcodes: map[uint]string{}}
+		gcodes: map[uint]string{}, soft: map[uint][2]string{}}
 	for _, r := range rels {
 		m.rows[r.Name] = map[uint]string{}
 		if r.fkFamily() {
@@ -427,7 +481,10 @@ func contains(xs []uint, x uint) bool {
 
 // unlink removes the link of target t (fk family): the foreign key becomes NULL,
 // or with Unscoped the row is deleted.
-func (m *model) unlink(r relSpec, t uint, unscoped bool) {
+func (m *model) unlink(r relSpec, t uint, unscoped, hard bool) {
+	if unscoped && !hard && r.Name == "Many" { // soft delete: the row stays, flagged, owner_id untouched
+		m.soft[t] = [2]string{m.rows[r.Name][t], m.holder[r.Name][t]}
+	}
 	if unscoped {
 		delete(m.rows[r.Name], t)
 		delete(m.holder[r.Name], t)
@@ -456,7 +513,7 @@ func (m *model) apply(s Step, mem []uint, args [][]uint) {
 				if s.Act == "replace" || r.Kind == hasOne {
 					for _, t := range sortedKeys(m.rows[r.Name]) {
 						if m.holder[r.Name][t] == ownersHolder(o) && !keep[t] {
-							m.unlink(r, t, s.Unscoped)
+							m.unlink(r, t, s.Unscoped, s.DBUnscoped)
 						}
 					}
 				}
@@ -465,7 +522,7 @@ func (m *model) apply(s Step, mem []uint, args [][]uint) {
 			for _, t := range args[0] {
 				for _, o := range mem {
 					if _, ok := m.rows[r.Name][t]; ok && m.holder[r.Name][t] == ownersHolder(o) {
-						m.unlink(r, t, s.Unscoped)
+						m.unlink(r, t, s.Unscoped, s.DBUnscoped)
 					}
 				}
 			}
@@ -473,7 +530,17 @@ func (m *model) apply(s Step, mem []uint, args [][]uint) {
 			for _, t := range sortedKeys(m.rows[r.Name]) {
 				for _, o := range mem {
 					if m.holder[r.Name][t] == ownersHolder(o) {
-						m.unlink(r, t, s.Unscoped)
+						m.unlink(r, t, s.Unscoped, s.DBUnscoped)
+					}
+				}
+			}
+		}
+		if r.Name == "Many" && s.Unscoped && s.DBUnscoped && (s.Act == "clear" || s.Act == "replace") {
+			// the permanent delete has no deleted_at filter: soft-deleted rows that still carry the owner's key go too
+			for t, v := range m.soft {
+				for _, o := range mem {
+					if v[1] == ownersHolder(o) {
+						delete(m.soft, t)
 					}
 				}
 			}
@@ -561,6 +628,24 @@ func (m *model) render() string {
 		if r.textKey() {
 			sort.Strings(es)
 		}
+		if r.Name == "Many" && len(m.soft) > 0 { // soft-deleted rows, merged in key order
+			type ent struct {
+				id uint
+				e  string
+			}
+			var all []ent
+			for i, t := range sortedKeys(m.rows[r.Name]) {
+				all = append(all, ent{t, es[i]})
+			}
+			for t, v := range m.soft {
+				all = append(all, ent{t, fmt.Sprintf(" %d=%s>DELETED", t, v[0])})
+			}
+			sort.Slice(all, func(i, j int) bool { return all[i].id < all[j].id })
+			es = nil
+			for _, x := range all {
+				es = append(es, x.e)
+			}
+		}
 		b.WriteString(r.Table + ":" + strings.Join(es, "") + "\n")
 	}
 	b.WriteString("owners:")
@@ -598,13 +683,14 @@ func (m *model) render() string {
 var ddlCache []string
 
 func openDB(su Setup) *testdb.DB {
-	d := testdb.Open(testdb.Options{Config: gorm.Config{DisableForeignKeyConstraintWhenMigrating: true}})
+	d := testdb.Open(testdb.Options{NoReturning: su.Cfg.NoReturning, Config: gorm.Config{DisableForeignKeyConstraintWhenMigrating: true,
+		SkipDefaultTransaction: su.Cfg.SkipTx, CreateBatchSize: su.Cfg.Batch, QueryFields: su.Cfg.QueryFields, FullSaveAssociations: su.Cfg.FullSave}})
 	if ddlCache == nil {
-		if err := d.AutoMigrate(&Owner{}, &One{}, &Many{}, &Note{}, &Boss{}, &Tag{}, &Chief{}, &Part{}, &Lang{}, &Doc{}, &Ref{}, &Guild{}, &Badge{}); err != nil {
+		if err := d.AutoMigrate(&Owner{}, &One{}, &Many{}, &Note{}, &Boss{}, &Tag{}, &Chief{}, &Part{}, &Lang{}, &Doc{}, &Ref{}, &Guild{}, &Badge{}, &Seal{}); err != nil {
 			panic("harness: migrate: " + err.Error())
 		}
 		var stmts []string
-		if err := d.Raw("SELECT sql FROM sqlite_master WHERE sql IS NOT NULL AND name NOT LIKE 'sqlite_%' ORDER BY rowid").Scan(&stmts).Error; err != nil || len(stmts) < 16 {
+		if err := d.Raw("SELECT sql FROM sqlite_master WHERE sql IS NOT NULL AND name NOT LIKE 'sqlite_%' ORDER BY rowid").Scan(&stmts).Error; err != nil || len(stmts) < 17 {
 			panic(fmt.Sprintf("harness: capture ddl: %v %v", err, stmts))
 		}
 		ddlCache = stmts
@@ -632,13 +718,16 @@ func openDB(su Setup) *testdb.DB {
 		for id := 1; id <= poolSize; id++ {
 			name := fmt.Sprintf("%s%d", strings.ToLower(r.Name), id)
 			switch {
-			case r.Kind == poly:
+			case r.Poly != "":
 				h := su.FK[r.Name][id-1]
 				if h == "" {
-					fmt.Fprintf(&q, "INSERT INTO notes (id, name, holder_id, holder_type) VALUES (%d, '%s', NULL, '');\n", id, name)
+					fmt.Fprintf(&q, "INSERT INTO %s (id, name, holder_id, holder_type) VALUES (%d, '%s', NULL, '');\n", r.Table, id, name)
 				} else {
 					p := strings.Split(h, "/")
-					fmt.Fprintf(&q, "INSERT INTO notes (id, name, holder_id, holder_type) VALUES (%d, '%s', %s, '%s');\n", id, name, p[1], p[0])
+					if p[0] == "owners" {
+						p[0] = r.Poly
+					}
+					fmt.Fprintf(&q, "INSERT INTO %s (id, name, holder_id, holder_type) VALUES (%d, '%s', %s, '%s');\n", r.Table, id, name, p[1], p[0])
 				}
 			case r.fkFamily():
 				h := su.FK[r.Name][id-1]
@@ -672,7 +761,7 @@ func openDB(su Setup) *testdb.DB {
 		}
 	}
 	for _, p := range su.Pairs["Tags"] {
-		fmt.Fprintf(&q, "INSERT INTO owner_tags (owner_id, tag_id) VALUES (%d, %d);\n", p[0], p[1])
+		fmt.Fprintf(&q, "INSERT INTO owner_tags (owner_key, tag_key) VALUES (%d, %d);\n", p[0], p[1])
 	}
 	for _, p := range su.Pairs["Langs"] {
 		fmt.Fprintf(&q, "INSERT INTO owner_langs (owner_id, lang_code) VALUES (%d, '%s');\n", p[0], codeOf(p[1]))
@@ -689,13 +778,13 @@ func openDB(su Setup) *testdb.DB {
 }
 
 const dumpSQL = `SELECT 0, id, name, coalesce(owner_id, 0), '' FROM ones
-UNION ALL SELECT 1, id, name, coalesce(owner_id, 0), '' FROM manies
+UNION ALL SELECT 1, id, name, coalesce(owner_id, 0), CASE WHEN deleted_at IS NULL THEN '' ELSE 'D' END FROM manies
 UNION ALL SELECT 2, id, name, coalesce(holder_id, 0), holder_type FROM notes
 UNION ALL SELECT 3, id, name, 0, '' FROM bosses
 UNION ALL SELECT 4, id, name, 0, '' FROM tags
 UNION ALL SELECT 5, id, name, 0, '' FROM chiefs
 UNION ALL SELECT 6, id, name, coalesce(boss_id, 0), cast(coalesce(chief_id, 0) AS text) || '>guild/' || coalesce(guild_code, '-') FROM owners
-UNION ALL SELECT 7, owner_id, '', tag_id, '' FROM owner_tags
+UNION ALL SELECT 7, owner_key, '', tag_key, '' FROM owner_tags
 UNION ALL SELECT 8, 0, name, coalesce(owner_id, 0), code FROM parts
 UNION ALL SELECT 9, 0, name, 0, code FROM langs
 UNION ALL SELECT 10, owner_id, '', 0, lang_code FROM owner_langs
@@ -704,6 +793,7 @@ UNION ALL SELECT 12, 0, name, 0, id || '.' || rev FROM refs
 UNION ALL SELECT 13, owner_id, '', 0, ref_id || '.' || ref_rev FROM owner_refs
 UNION ALL SELECT 14, id, name, 0, '' FROM guilds
 UNION ALL SELECT 15, id, name, 0, coalesce(owner_code, '') FROM badges
+UNION ALL SELECT 16, id, name, coalesce(holder_id, 0), CASE holder_type WHEN 'master' THEN 'owners' ELSE holder_type END FROM seals
 ORDER BY 1, 2, 4`
 
 // dump reads every table with plain SQL (a fresh query, never through the operated
@@ -716,7 +806,7 @@ func dump(d *testdb.DB) string {
 		panic("harness: dump: " + err.Error())
 	}
 	defer rows.Close()
-	ent := make([][]string, 16)
+	ent := make([][]string, 17)
 	for rows.Next() {
 		var tbl int
 		var id, fk uint
@@ -727,12 +817,15 @@ func dump(d *testdb.DB) string {
 		e := ""
 		switch tbl {
 		case 0, 1:
-			if fk == 0 {
+			switch {
+			case typ == "D":
+				e = fmt.Sprintf(" %d=%s>DELETED", id, name)
+			case fk == 0:
 				e = fmt.Sprintf(" %d=%s>-", id, name)
-			} else {
+			default:
 				e = fmt.Sprintf(" %d=%s>owners/%d", id, name, fk)
 			}
-		case 2:
+		case 2, 16:
 			if fk == 0 {
 				e = fmt.Sprintf(" %d=%s>-", id, name)
 			} else {
@@ -772,7 +865,7 @@ func dump(d *testdb.DB) string {
 		i    int
 		text bool
 	}{{"ones", 0, false}, {"manies", 1, false}, {"notes", 2, false}, {"bosses", 3, false}, {"tags", 4, false}, {"chiefs", 5, false},
-		{"parts", 8, true}, {"langs", 9, true}, {"docs", 11, true}, {"refs", 12, true}, {"guilds", 14, false}, {"badges", 15, false},
+		{"parts", 8, true}, {"langs", 9, true}, {"docs", 11, true}, {"refs", 12, true}, {"guilds", 14, false}, {"badges", 15, false}, {"seals", 16, false},
 		{"owners", 6, false}, {"owner_tags", 7, false}, {"owner_langs", 10, true}, {"owner_refs", 13, true}} {
 		if t.text { // text keys: sorted as text, like model.render does
 			sort.Strings(ent[t.i])
@@ -796,6 +889,7 @@ type hist struct {
 	// oneUnlinked: the last has-one call of the history was a Delete or Clear (mixed histories
 	// then try a belongs-to Clear more often: the shape of the repaired hasone-zero-pointer finding)
 	oneUnlinked bool
+	stepNo      int
 }
 
 func start(su Setup) *hist {
@@ -835,8 +929,12 @@ func (h *hist) modelArg() interface{} {
 	switch {
 	case !h.su.Slice:
 		return h.single
+	case h.su.PtrElems && h.su.ByValue:
+		return h.ptrs
 	case h.su.PtrElems:
 		return &h.ptrs
+	case h.su.ByValue:
+		return h.vals
 	default:
 		return &h.vals
 	}
@@ -892,7 +990,21 @@ func (h *hist) fresh(r relSpec, v Val) reflect.Value {
 // pack turns the values of one Args entry into call arguments of the given form.
 func (h *hist) pack(r relSpec, vs []Val, form string) []interface{} {
 	var ps []reflect.Value
-	for _, v := range vs {
+	for i, v := range vs {
+		// on even calls a duplicate of a saved target in a pointer form is the SAME pointer again
+		// (GetIdentityFieldValuesMap skips an element it has already seen), else another fresh copy
+		if h.stepNo%2 == 0 && v.ID != 0 && (form == "ptrs" || form == "sliceptr") {
+			same := -1
+			for j := 0; j < i; j++ {
+				if vs[j].ID == v.ID {
+					same = j
+				}
+			}
+			if same >= 0 {
+				ps = append(ps, ps[same])
+				continue
+			}
+		}
 		ps = append(ps, h.fresh(r, v))
 	}
 	switch form {
@@ -902,6 +1014,27 @@ func (h *hist) pack(r relSpec, vs []Val, form string) []interface{} {
 			out[i] = p.Interface()
 		}
 		return out
+	case "value": // Delete(T{...}, T{...}): plain struct values
+		out := make([]interface{}, len(ps))
+		for i, p := range ps {
+			out[i] = p.Elem().Interface()
+		}
+		return out
+	case "mixed": // Append(&a, []T{b, c}): a pointer followed by a slice
+		if len(ps) < 2 {
+			return []interface{}{ps[0].Interface()}
+		}
+		sl := reflect.MakeSlice(reflect.SliceOf(r.Elem), 0, len(ps))
+		for _, p := range ps[1:] {
+			sl = reflect.Append(sl, p.Elem())
+		}
+		return []interface{}{ps[0].Interface(), sl.Interface()}
+	case "ptrarray": // *[n]T
+		arr := reflect.New(reflect.ArrayOf(len(ps), r.Elem))
+		for i, p := range ps {
+			arr.Elem().Index(i).Set(p.Elem())
+		}
+		return []interface{}{arr.Interface()}
 	case "sliceptr":
 		s := reflect.MakeSlice(reflect.SliceOf(reflect.PointerTo(r.Elem)), 0, len(ps))
 		for _, p := range ps {
@@ -929,6 +1062,9 @@ func handleOf(v reflect.Value, r relSpec) uint {
 		return compHandle(uint(v.FieldByName("ID").Uint()), uint(v.FieldByName("Rev").Uint()))
 	}
 	if !r.Str {
+		if f := v.FieldByName("ID"); f.Kind() == reflect.Int {
+			return uint(f.Int())
+		}
 		return uint(v.FieldByName("ID").Uint())
 	}
 	c := v.FieldByName("Code").String()
@@ -1071,8 +1207,21 @@ func (h *hist) step(s Step) string {
 	before := h.m.render()
 	h.d.Rec.Reset()
 
+	h.stepNo++
 	var callArgs []interface{}
+	if len(s.Forms) == 1 && s.Forms[0] == "own-field" {
+		// Delete(&owner.Rel): the owner's own relation field (pointer fields are passed as they are)
+		f := reflect.ValueOf(h.memOwner(s.Own)).Elem().FieldByName(r.Name)
+		if f.Kind() == reflect.Ptr {
+			callArgs = []interface{}{f.Interface()}
+		} else {
+			callArgs = []interface{}{f.Addr().Interface()}
+		}
+	}
 	for i, vs := range s.Args {
+		if s.Forms[i] == "own-field" {
+			break
+		}
 		a := h.pack(r, vs, s.Forms[i])
 		if h.su.Slice && (s.Act == "append" || s.Act == "replace") {
 			if len(a) != 1 {
@@ -1081,22 +1230,51 @@ func (h *hist) step(s Step) string {
 		}
 		callArgs = append(callArgs, a...)
 	}
-	assoc := h.d.Model(h.modelArg()).Association(s.Rel)
-	if s.Unscoped {
-		assoc = assoc.Unscoped()
+	call := func(db *gorm.DB) error {
+		if s.DBUnscoped {
+			db = db.Unscoped()
+		}
+		if s.Omit {
+			db = db.Omit(s.Rel + ".*")
+		}
+		assoc := db.Model(h.modelArg()).Association(s.Rel)
+		if s.Unscoped {
+			assoc = assoc.Unscoped()
+		}
+		switch s.Act {
+		case "append":
+			return assoc.Append(callArgs...)
+		case "replace":
+			return assoc.Replace(callArgs...)
+		case "delete":
+			return assoc.Delete(callArgs...)
+		case "clear":
+			return assoc.Clear()
+		}
+		return nil // count, find: checked below for every step
 	}
 	var err error
-	switch s.Act {
-	case "append":
-		err = assoc.Append(callArgs...)
-	case "replace":
-		err = assoc.Replace(callArgs...)
-	case "delete":
-		err = assoc.Delete(callArgs...)
-	case "clear":
-		err = assoc.Clear()
-	case "count", "find":
-		// checked below for every step
+	switch s.Handle {
+	case "tx":
+		tx := h.d.Begin()
+		err = call(tx)
+		if e := tx.Commit().Error; err == nil {
+			err = e
+		}
+	case "txfunc":
+		err = h.d.Transaction(func(tx *gorm.DB) error { return call(tx) })
+	case "ctx":
+		err = call(h.d.WithContext(context.WithValue(context.Background(), ctxKey{}, "c12")))
+	case "session":
+		err = call(h.d.Session(&gorm.Session{}))
+	case "newdb":
+		err = call(h.d.Session(&gorm.Session{NewDB: true}))
+	case "prepared":
+		err = call(h.d.Session(&gorm.Session{PrepareStmt: true}))
+	case "skiphooks":
+		err = call(h.d.Session(&gorm.Session{SkipHooks: true}))
+	default:
+		err = call(h.d.DB)
 	}
 	fail := func(format string, a ...interface{}) string {
 		var st []string
@@ -1197,17 +1375,68 @@ func (h *hist) step(s Step) string {
 	if s.Unscoped {
 		a3 = a3.Unscoped()
 	}
-	out := reflect.New(reflect.SliceOf(r.Elem))
+	// destination alternates between *[]T and *[]*T
+	newDest := func() reflect.Value {
+		if h.stepNo%2 == 1 {
+			return reflect.New(reflect.SliceOf(reflect.PointerTo(r.Elem)))
+		}
+		return reflect.New(reflect.SliceOf(r.Elem))
+	}
+	keysOf := func(out reflect.Value) []uint {
+		var found []uint
+		for i := 0; i < out.Elem().Len(); i++ {
+			found = append(found, handleOf(reflect.Indirect(out.Elem().Index(i)), r))
+		}
+		sort.Slice(found, func(i, j int) bool { return found[i] < found[j] })
+		return found
+	}
+	out := newDest()
 	if err := a3.Find(out.Interface()); err != nil {
 		return fail("Find returned an error: %v", err)
 	}
-	var found []uint
-	for i := 0; i < out.Elem().Len(); i++ {
-		found = append(found, handleOf(out.Elem().Index(i), r))
-	}
-	sort.Slice(found, func(i, j int) bool { return found[i] < found[j] })
+	found := keysOf(out)
 	if !okCounts[len(found)] || fmt.Sprint(distinct(found)) != fmt.Sprint(distinct(existing)) {
 		return fail("Find() returned keys %v, the model links %v", found, existing)
+	}
+	// Find/Count with conditions (documented: db.Model(&o).Where(..).Association(..).Find / Find(&out, conds)):
+	// the linked targets whose name is in a given set
+	if h.stepNo%2 == 0 && len(existing) > 0 {
+		var names []string
+		var want []uint
+		for i, t := range distinct(existing) {
+			if i%2 == 0 {
+				names = append(names, h.m.rows[r.Name][t])
+			}
+		}
+		for _, t := range existing {
+			for _, n := range names {
+				if h.m.rows[r.Name][t] == n {
+					want = append(want, t)
+				}
+			}
+		}
+		okN := map[int]bool{len(want): true}
+		if h.su.Slice {
+			okN[len(distinct(want))] = true
+		}
+		a4 := h.d.Where("name IN ?", names).Model(h.modelArg()).Association(s.Rel)
+		if c := a4.Count(); a4.Error != nil || !okN[int(c)] {
+			return fail("Where(name IN %v)...Count() = %d (error %v), the model has %v", names, c, a4.Error, want)
+		}
+		o1 := newDest()
+		if err := h.d.Model(h.modelArg()).Where("name IN ?", names).Association(s.Rel).Find(o1.Interface()); err != nil {
+			return fail("Where(..)...Find returned an error: %v", err)
+		}
+		if f := keysOf(o1); !okN[len(f)] || fmt.Sprint(distinct(f)) != fmt.Sprint(distinct(want)) {
+			return fail("Where(name IN %v)...Find() returned keys %v, the model has %v", names, f, want)
+		}
+		o2 := newDest()
+		if err := h.d.Model(h.modelArg()).Association(s.Rel).Find(o2.Interface(), "name IN ?", names); err != nil {
+			return fail("Find(out, conds) returned an error: %v", err)
+		}
+		if f := keysOf(o2); !okN[len(f)] || fmt.Sprint(distinct(f)) != fmt.Sprint(distinct(want)) {
+			return fail("Find(out, name IN %v) returned keys %v, the model has %v", names, f, want)
+		}
 	}
 	if got := dump(h.d); got != h.m.render() {
 		return fail("Count/Find changed the database")
@@ -1234,7 +1463,7 @@ func indent(s string) string {
 
 func genSetup(rt *rapid.T) Setup {
 	su := Setup{}
-	su.Kind = rapid.SampledFrom([]string{"One", "Many", "Notes", "Boss", "Chief", "Tags", "Parts", "Langs", "Docs", "Refs", "Guild", "Badges", "mixed", "mixed"}).Draw(rt, "kind")
+	su.Kind = rapid.SampledFrom([]string{"One", "Many", "Notes", "Boss", "Chief", "Tags", "Parts", "Langs", "Docs", "Refs", "Guild", "Badges", "Seal", "mixed", "mixed"}).Draw(rt, "kind")
 	su.NOwners = rapid.IntRange(1, 3).Draw(rt, "owners")
 	su.Slice = rapid.IntRange(0, 2).Draw(rt, "mode") == 0
 	if su.Slice {
@@ -1246,6 +1475,16 @@ func genSetup(rt *rapid.T) Setup {
 		su.Mem = []uint{uint(rapid.IntRange(1, su.NOwners).Draw(rt, "owner"))}
 	}
 	su.Preload = rapid.IntRange(0, 3).Draw(rt, "preload") == 0
+	if su.Slice {
+		su.ByValue = rapid.IntRange(0, 2).Draw(rt, "byValue") == 0
+	}
+	su.Cfg = Cfg{
+		SkipTx:      rapid.IntRange(0, 3).Draw(rt, "cfg.skiptx") == 0,
+		Batch:       rapid.SampledFrom([]int{0, 0, 0, 1, 2}).Draw(rt, "cfg.batch"),
+		QueryFields: rapid.IntRange(0, 3).Draw(rt, "cfg.queryfields") == 0,
+		NoReturning: rapid.IntRange(0, 3).Draw(rt, "cfg.noreturning") == 0,
+		FullSave:    rapid.IntRange(0, 3).Draw(rt, "cfg.fullsave") == 0,
+	}
 	inMem := func(o uint) bool { return contains(su.Mem, o) }
 	// holders that may own seeded links: database-only owners (always), in-memory owners only when preloaded
 	var holders []uint
@@ -1270,7 +1509,7 @@ func genSetup(rt *rapid.T) Setup {
 					h = ownersHolder(o)
 					hasOneTaken[o] = true
 				}
-			case c == 2 && r.Kind == poly:
+			case c == 2 && r.Poly != "":
 				h = fmt.Sprintf("others/%d", rapid.IntRange(1, 3).Draw(rt, "seed.other"))
 			}
 			su.FK[r.Name] = append(su.FK[r.Name], h)
@@ -1305,14 +1544,14 @@ type stepInfo struct { // what the drawn values were, for NT and the class histo
 	dup     bool // the same target twice in one call
 }
 
-var formsMulti = []string{"ptrs", "slice", "ptrslice", "sliceptr"}
+var formsMulti = []string{"ptrs", "slice", "ptrslice", "sliceptr", "mixed", "ptrarray"}
 
 // genStep draws the next call from the current model state.
 func (h *hist) genStep(rt *rapid.T, allowUnscoped bool) (Step, stepInfo) {
 	s := Step{}
 	info := stepInfo{}
 	if h.su.Kind == "mixed" {
-		s.Rel = rapid.SampledFrom([]string{"One", "Many", "Notes", "Boss", "Chief", "Tags", "Parts", "Langs", "Docs", "Refs", "Guild", "Badges"}).Draw(rt, "rel")
+		s.Rel = rapid.SampledFrom([]string{"One", "Many", "Notes", "Boss", "Chief", "Tags", "Parts", "Langs", "Docs", "Refs", "Guild", "Badges", "Seal"}).Draw(rt, "rel")
 	} else {
 		s.Rel = h.su.Kind
 	}
@@ -1451,9 +1690,13 @@ func (h *hist) genStep(rt *rapid.T, allowUnscoped bool) (Step, stepInfo) {
 	}
 	form := func() string {
 		if r.single() {
-			return "ptrs"
+			return rapid.SampledFrom([]string{"ptrs", "ptrs", "ptrs", "slice", "ptrarray"}).Draw(rt, "form")
 		}
 		return rapid.SampledFrom(formsMulti).Draw(rt, "form")
+	}
+	s.Handle = rapid.SampledFrom([]string{"", "", "", "ctx", "session", "newdb", "prepared", "skiphooks", "tx", "txfunc"}).Draw(rt, "handle")
+	if s.Unscoped {
+		s.DBUnscoped = rapid.Bool().Draw(rt, "dbUnscoped")
 	}
 	switch s.Act {
 	case "append", "replace":
@@ -1461,13 +1704,18 @@ func (h *hist) genStep(rt *rapid.T, allowUnscoped bool) (Step, stepInfo) {
 			n := 1
 			if !r.single() {
 				n = rapid.IntRange(1, 3).Draw(rt, "nvals")
+				// now and then more values than the capacity (10) the save callbacks start their slices with
+				if h.nextStr["Parts"]+h.nextStr["Langs"] < 80 && rapid.IntRange(0, 19).Draw(rt, "bulk") == 0 {
+					n = rapid.IntRange(11, 13).Draw(rt, "nbulk")
+					info.classes = append(info.classes, "size:11-13-values")
+				}
 			}
 			var vs []Val
 			for i := 0; i < n; i++ {
 				vs = append(vs, draw(o, vs))
 			}
 			f := form()
-			if h.su.Slice && f == "ptrs" && len(vs) > 1 {
+			if h.su.Slice && (f == "ptrs" || f == "mixed") && len(vs) > 1 {
 				f = "slice" // one argument per owner
 			}
 			s.Args = append(s.Args, vs)
@@ -1482,8 +1730,43 @@ func (h *hist) genStep(rt *rapid.T, allowUnscoped bool) (Step, stepInfo) {
 			}
 		}
 		s.Args = [][]Val{vs}
-		f := rapid.SampledFrom(formsMulti).Draw(rt, "form")
+		f := rapid.SampledFrom([]string{"ptrs", "slice", "ptrslice", "sliceptr", "mixed", "ptrarray", "value", "own-field"}).Draw(rt, "form")
+		if f == "own-field" {
+			// Delete(&owner.Rel): what the owner object holds, i.e. (memory = model) its links
+			var cands []int
+			for i, o := range mem {
+				if len(h.m.linked(r, []uint{o})) > 0 {
+					cands = append(cands, i)
+				}
+			}
+			if len(cands) == 0 {
+				f = "ptrs"
+			} else {
+				s.Own = cands[rapid.IntRange(0, len(cands)-1).Draw(rt, "own")]
+				vs = nil
+				for _, t := range distinct(h.m.linked(r, []uint{mem[s.Own]})) {
+					vs = append(vs, Val{ID: t})
+				}
+				s.Args = [][]Val{vs}
+				info.classes = []string{"val:linked-self"}
+				info.linked = true
+			}
+		}
+		if len(vs) == 0 && (f == "ptrarray" || f == "mixed") {
+			f = "ptrs"
+		}
 		s.Forms = []string{f}
+	}
+	if r.Kind == m2m && (s.Act == "append" || s.Act == "replace") {
+		saved := true
+		for _, vs := range s.Args {
+			for _, v := range vs {
+				saved = saved && v.New == ""
+			}
+		}
+		if saved {
+			s.Omit = rapid.IntRange(0, 2).Draw(rt, "omit") == 0
+		}
 	}
 	return s, info
 }
@@ -1561,6 +1844,25 @@ func TestC12(t *testing.T) {
 			for _, f := range s.Forms {
 				classes["form:"+f] = true
 			}
+			if s.Handle != "" {
+				classes["handle:"+s.Handle] = true
+			}
+			if info.dup && h.stepNo%2 == 1 { // step() increments stepNo first: this call runs with an even number
+				for _, f := range s.Forms {
+					if f == "ptrs" || f == "sliceptr" {
+						classes["val:dup-same-pointer"] = true
+					}
+				}
+			}
+			if s.DBUnscoped {
+				classes["opt:db.Unscoped+Unscoped/"+r.Kind+"/"+s.Act] = true
+			}
+			if s.Omit {
+				classes["opt:Omit(rel.*)/"+s.Act] = true
+			}
+			if s.Unscoped && r.Name == "Many" {
+				classes["shape:soft-delete-target/"+s.Act] = true
+			}
 			if s.mutating() {
 				mutating++
 				if (s.Act == "delete" || s.Act == "replace") && sawAppend {
@@ -1600,6 +1902,30 @@ func TestC12(t *testing.T) {
 		}
 		if su.Preload {
 			cl = append(cl, "owner:preloaded")
+		}
+		if su.ByValue {
+			cl = append(cl, "owners:slice-by-value")
+		}
+		if su.Cfg.SkipTx {
+			cl = append(cl, "cfg:SkipDefaultTransaction")
+		}
+		if su.Cfg.Batch > 0 {
+			cl = append(cl, fmt.Sprintf("cfg:CreateBatchSize=%d", su.Cfg.Batch))
+		}
+		if su.Cfg.QueryFields {
+			cl = append(cl, "cfg:QueryFields")
+		}
+		if su.Cfg.NoReturning {
+			cl = append(cl, "cfg:no-RETURNING")
+		}
+		if su.Cfg.FullSave {
+			cl = append(cl, "cfg:FullSaveAssociations")
+		}
+		if h.stepNo >= 1 {
+			cl = append(cl, "find:dest=*[]*T")
+		}
+		if h.stepNo >= 2 {
+			cl = append(cl, "find:dest=*[]T", "find:Where+Count/Find,Find(conds)")
 		}
 		evid.Case(desc.String(), mutating >= 3 && afterAppend && linkedOrDup, nil, cl...)
 	})
@@ -1714,4 +2040,60 @@ func TestC12WitnessBelongsToClearSliceOtherFK(t *testing.T) {
 // foreign key is compared with the primary key column, g1 survives.
 func TestC12WitnessBelongsToUnscopedReferences(t *testing.T) {
 	witness(t, plainSetup("Guild"), one("Guild", "append", false, 1), one("Guild", "delete", true, 1))
+}
+
+// ---- documented error returns ---------------------------------------------------------------------------
+
+// The documented failure modes of association mode: each must return an error and define
+// no link (the database stays as it was).
+func TestC12Errors(t *testing.T) {
+	type ecase struct {
+		name  string
+		slice bool
+		call  func(h *hist) error
+	}
+	cases := []ecase{
+		{"unknown relation name", false, func(h *hist) error {
+			return h.d.Model(h.modelArg()).Association("Nope").Append(&Many{Name: "x"})
+		}},
+		{"slice of 2 owners, Append with 1 value", true, func(h *hist) error {
+			return h.d.Model(h.modelArg()).Association("Many").Append(&Many{Name: "x"})
+		}},
+		{"slice of 2 owners, Replace with 3 values", true, func(h *hist) error {
+			return h.d.Model(h.modelArg()).Association("Tags").Replace(&Tag{Name: "x"}, &Tag{Name: "y"}, &Tag{Name: "z"})
+		}},
+		{"Append of a non-addressable struct value", false, func(h *hist) error {
+			return h.d.Model(h.modelArg()).Association("Many").Append(Many{Name: "x"})
+		}},
+		{"Append of a value of another type", false, func(h *hist) error {
+			return h.d.Model(h.modelArg()).Association("Many").Append(&Tag{Name: "x"})
+		}},
+		{"Delete on an unsaved owner", false, func(h *hist) error {
+			return h.d.Model(&Owner{Name: "unsaved"}).Association("Many").Delete(&Many{ID: 1})
+		}},
+		{"many-to-many Replace on an unsaved owner", false, func(h *hist) error {
+			return h.d.Model(&Owner{Name: "unsaved"}).Association("Tags").Replace()
+		}},
+	}
+	evid.Rule("C12 errors: unknown relation, argument count not equal to the number of owners, non-addressable value, value of another type, unsaved owner: an error is returned and no link or record is stored")
+	for _, c := range cases {
+		su := plainSetup("Many")
+		if c.slice {
+			su = sliceSetup("Many", 2)
+		}
+		su.FK["Many"] = []string{"owners/1", "", "", ""}
+		su.Pairs = map[string][][2]uint{"Tags": {{1, 1}}}
+		h := start(su)
+		before := dump(h.d)
+		err := c.call(h)
+		after := dump(h.d)
+		h.close()
+		evid.Case("error: "+c.name, false, nil, "error:"+c.name)
+		if err == nil {
+			t.Errorf("C12 violated: %s returned no error", c.name)
+		}
+		if before != after {
+			t.Errorf("C12 violated: %s (error %v) changed the database\n  before:\n%s  after:\n%s", c.name, err, indent(before), indent(after))
+		}
+	}
 }
